@@ -61,6 +61,14 @@ Theorem C17_midframe : forall lookup dec p msize sc f k,
 Proof. exact recv_rd_midframe. Qed.
 Print Assumptions C17_midframe.
 
+(** generic path under ANY reader behaviour, Reads that hand over (0, nil) included: recv answers
+    as on the flat stream or gives the connection up -- never another message, never a truncated one *)
+Theorem C17_generic_safe : forall lookup dec closed msize sc s,
+  (exists r sc', recv_rd lookup dec PGeneric closed msize sc s = RR (fst (recv lookup dec closed msize s)) r sc') \/
+  (exists c r sc', recv_rd lookup dec PGeneric closed msize sc s = RR (ConnErr c) r sc').
+Proof. exact recv_rd_generic_safe. Qed.
+Print Assumptions C17_generic_safe.
+
 (** hypotheses are satisfiable; and a concrete run: header cut 3+4, then single bytes *)
 Example C17_script_example : script_ok PGeneric [(3, false); (4, false); (1, true); (1, true); (1, false); (1, true)].
 Proof. repeat constructor. Qed.
